@@ -48,7 +48,19 @@ pub fn nonce_for(proto: Proto, r: &mut Rng) -> String {
     match r.below(10) {
         0 => "00".repeat(n),
         1 => "ff".repeat(n),
+        // caller-chosen text as a nonce (printable, so that it is UTF-8 wherever it ends up)
+        2 => hex::encode(printable(r, n)),
         _ => hex::encode(r.bytes(n)),
+    }
+}
+
+pub fn printable(r: &mut Rng, n: usize) -> Vec<u8> {
+    if n >= 12 && r.chance(1, 2) {
+        // JSON text of exactly n bytes
+        let fill: String = (0..n - 8).map(|_| (b'a' + r.below(26) as u8) as char).collect();
+        format!("{{\"a\":\"{}\"}}", fill).into_bytes()
+    } else {
+        (0..n).map(|_| 0x20 + r.below(95) as u8).collect()
     }
 }
 
